@@ -210,6 +210,40 @@ def sequences_on_chunk(lens, strand, frames):
     return fn
 
 
+CONVERSIONS = ("sequence_pos_to_transcript", "sequence_pos_to_cds", "cds_pos_to_sequence", "cds_pos_to_transcript", "transcript_pos_to_cds",
+               "transcript_pos_to_sequence")
+
+
+def conversions_on_chunk(strand):
+    """coordinate conversions are chromosome-level answers: a coding transcript built on a chunk (window cutting it anywhere) converts every
+    position exactly like its parent-less twin (same value or same refusal). Realised: the solver closes the offset space, positions are looped natively"""
+
+    def outcome(f, p):
+        try:
+            return f(p)
+        except (BioCantorException, ValueError) as e:
+            return type(e).__name__
+
+    def fn(s0, w, co, ce):
+        s0, w, co, ce = concretize(s0, w, co, ce)
+        with untraced():
+            l0, g1, l1 = 5, 3, 6
+            ex = [(s0, s0 + l0), (s0 + l0 + g1, s0 + l0 + g1 + l1)]
+            cds = [(ex[0][0] + co, ex[0][1]), (ex[1][0], ex[1][0] + ce)]
+            mk = lambda par: TranscriptInterval([e[0] for e in ex], [e[1] for e in ex], strand, [c[0] for c in cds], [c[1] for c in cds],  # noqa: E731
+                                                [CDSFrame.ZERO, CDSFrame.ZERO], guid=43, parent_or_seq_chunk_parent=par)
+            whole, chunk = mk(None), mk(chunk_parent(w, L))
+            for p in list(range(0, l0 + l1 + 2)) + list(range(s0 - 1, ex[1][1] + 2)):
+                for name in CONVERSIONS:
+                    if outcome(getattr(chunk, name), p) != outcome(getattr(whole, name), p):
+                        return False
+                if outcome(chunk.cds.sequence_pos_to_amino_acid, p) != outcome(whole.cds.sequence_pos_to_amino_acid, p):
+                    return False
+            return True
+
+    return fn
+
+
 def gene_on_chunk(strand):
     from inscripta.biocantor.gene.feature import FeatureIntervalCollection
     from inscripta.biocantor.gene.gene import GeneInterval
@@ -369,6 +403,14 @@ def obligations(tier):
                        desc="coding transcript on a chunk: stays coding with unchanged chromosome CDS bounds whatever the window; the CDS chunk-relative "
                             "location is empty exactly when no CDS base is inside, the transcript's exactly when no exon base is inside",
                        bounds="2 exons, CDS inside the second exon, symbolic window", examples=[dict(s0=100, l0=5, g1=3, l1=9, co=2, cl=6, w=96, p=110)]))
+        out.append(Obl("conversions_on_chunk_%s" % sn, conversions_on_chunk(strand), dict(s0=int, w=int, co=int, ce=int),
+                       lambda s0, w, co, ce: 100 <= w and w <= 102 and w - 16 <= s0 and s0 <= w + L + 2 and (co == 0 or co == 2 or co == 4) and (ce == 1 or ce == 3 or ce == 6),
+                       budget=600, cost=60,
+                       desc="coding transcript on a chunk whose window may cut it anywhere (or miss it): sequence/transcript/CDS/amino-acid position conversions give "
+                            "the same value or the same refusal as on the parent-less twin, for every position (position conversions are chromosome-level answers)",
+                       bounds="2 exons (5+6 nt, 3-nt intron), CDS start offset 0/2/4, CDS end offset 1/3/6, window start 100..102, every transcript offset touching "
+                              "or missing the window, chunk length %d (realised)" % L,
+                       examples=[dict(s0=98, w=100, co=2, ce=3), dict(s0=110, w=101, co=0, ce=6)]))
         if quick and strand is MINUS:
             continue
         out.append(Obl("gene_on_chunk_%s" % sn, gene_on_chunk(strand), dict(s0=int, l0=int, g1=int, l1=int, w=int),
